@@ -1,25 +1,54 @@
 #!/venv/bin/python
-"""Sensitivity helper: tools/mut.py <ID> <repo-relative file> <old> <new> [extra check args...]
-Replaces the first occurrence of <old> by <new> in /repo/<file>, runs ./check <ID>, restores the file
-(byte-exact copy kept in memory), and prints whether the check raised an alarm."""
-import os, subprocess, sys, time
-pid, rel, old, new = sys.argv[1:5]
-extra = sys.argv[5:]
-path = os.path.join('/repo', rel)
-orig = open(path, 'rb').read()
-st = os.stat(path)
-if old.encode() not in orig:
-    sys.exit('pattern not found in %s' % rel)
+"""Sensitivity helper.  Never touches /repo: works on a scratch copy that is removed afterwards.
+
+  tools/mut.py <ID> <repo-relative file> <old> <new> [-- extra check args...]
+  tools/mut.py <ID> --patch <file.diff> [-- extra check args...]
+
+Copies /repo/TidalPy (without __pycache__) to /tmp/mut-<pid>/, applies the textual replacement (first
+occurrence; file may be .py or a generated .c, which the build step then recompiles inside the scratch
+copy) or the patch (-p1), runs `./check <ID>` with VERIF_REPO pointing at the scratch copy and evidence
+redirected to the scratch dir, and reports CAUGHT (rc 1) / MISSED (rc 0) / HARNESS-ERROR (rc 2).
+"""
+import os, shutil, subprocess, sys, time
+args = sys.argv[1:]
+extra = []
+if '--' in args:
+    i = args.index('--'); extra = args[i + 1:]; args = args[:i]
+pid = args[0]
+scratch = '/tmp/mut-%d' % os.getpid()
+os.makedirs(scratch)
 try:
-    open(path, 'wb').write(orig.replace(old.encode(), new.encode(), 1))
+    subprocess.run(['rsync', '-a', '--exclude', '__pycache__', '/repo/TidalPy', '/repo/cython_extensions.json',
+                    '/repo/setup.py', scratch + '/'], check=True)
+    if args[1] == '--patch':
+        r = subprocess.run(['patch', '-p1', '-f', '-d', scratch, '-i', os.path.abspath(args[2])], capture_output=True, text=True)
+        print(r.stdout.strip().splitlines()[-1] if r.stdout.strip() else r.stderr)
+        desc = 'patch ' + args[2]
+    else:
+        rel, old, new = args[1:4]
+        path = os.path.join(scratch, rel)
+        src = open(path).read()
+        if old not in src:
+            sys.exit('pattern not found in %s' % rel)
+        open(path, 'w').write(src.replace(old, new, 1))
+        desc = '%s: %r -> %r' % (rel, old, new)
+    env = dict(os.environ, VERIF_REPO=scratch, VERIF_EVIDENCE_DIR=scratch + '/evidence', VERIF_OUT_DIR=scratch + '/out')
     t0 = time.time()
-    r = subprocess.run(['./check', pid] + extra, cwd='/verif', capture_output=True, text=True, stdin=subprocess.DEVNULL)
+    r = subprocess.run(['/verif/check', pid] + extra, cwd='/verif', env=env, capture_output=True, text=True, stdin=subprocess.DEVNULL)
     out = r.stdout + r.stderr
-    lines = [l for l in out.splitlines() if 'VIOLATION' in l or 'failing signature' in l or 'HARNESS' in l or 'tier=' in l]
-    print('\n'.join(lines[:14]))
-    print('MUTANT %s: rc=%d (%.0fs) %r -> %r' % ('CAUGHT' if r.returncode == 1 else 'MISSED' if r.returncode == 0 else 'HARNESS-ERROR', r.returncode, time.time() - t0, old, new))
-    if r.returncode == 2:
-        print(out[-1500:])
+    lines = [l for l in out.splitlines() if any(k in l for k in ('VIOLATION', 'failing signature', 'HARNESS', 'tier=', 'detail:'))]
+    print('\n'.join(l[:400] for l in lines[:16]))
+    print('MUTANT %s: rc=%d (%.0fs) %s' % ({1: 'CAUGHT', 0: 'MISSED'}.get(r.returncode, 'HARNESS-ERROR'), r.returncode, time.time() - t0, desc))
+    if r.returncode not in (0, 1):
+        print(out[-2500:])
 finally:
-    open(path, 'wb').write(orig)
-    os.utime(path, ns=(st.st_atime_ns, st.st_mtime_ns))
+    sys.path.insert(0, '/verif')
+    try:
+        os.environ['VERIF_REPO'] = scratch
+        from vlib import env as venv
+        venv.REPO = scratch
+        key = venv.source_hash()
+        shutil.rmtree(os.path.join(venv.NBCACHE, key), ignore_errors=True)
+    except Exception as e:
+        print('cache cleanup:', e)
+    shutil.rmtree(scratch, ignore_errors=True)
